@@ -168,6 +168,7 @@ type s2cState struct {
 	src       string
 	dst       string
 	unaryDone bool
+	resetBeforeTrailerN int
 }
 
 func shape(r *Rpc) string {
@@ -312,13 +313,9 @@ func checkWireLinks(e *Env, sim *Sim, c2sL, s2cL []*Link, connDied bool) {
 			if req.bodies == 0 {
 				e.Violate(prop, "reset-without-body", "server", "id %d: server reset although no body had been sent for the id", r.GetId())
 			}
-			if c := callOfID[k]; c != 0 && sim != nil {
-				if rec := sim.Calls[c]; rec != nil && rec.HInvoked > 0 && !st.trailer {
-					// the stream existed on the server; its trailer must come first
-					if rec.HReturned {
-						e.Violate(prop, "reset-before-trailer", "server.resetStream", "id %d (call %d): server reset written before the stream's trailer", r.GetId(), c)
-					}
-				}
+			if !st.trailer {
+				// if this stream's trailer shows up later, the reset has overtaken it
+				st.resetBeforeTrailerN = ev.N
 			}
 			continue
 		}
@@ -341,6 +338,9 @@ func checkWireLinks(e *Env, sim *Sim, c2sL, s2cL []*Link, connDied bool) {
 		case r.GetTrailer() != nil:
 			if r.GetStatus() == nil {
 				e.Violate(prop, "trailer-without-status", "server", "id %d: server trailer carries no status", r.GetId())
+			}
+			if st.resetBeforeTrailerN != 0 {
+				e.Violate(prop, "reset-before-trailer", "server.resetStream", "id %d (call %d): the server's reset (event %d) overtook the stream's trailer (event %d)", r.GetId(), callOfID[k], st.resetBeforeTrailerN, ev.N)
 			}
 			st.trailer = true
 			st.trailerN = ev.N
